@@ -11,7 +11,7 @@ CHECKS = {
  "C04": dict(
   category="fault_enumeration", design_ref="DESIGN.md 4/C04",
   technique="exhaustive corruption enumeration (every bit flip / truncation / overwrite / payload swap) on small archives in isolated workers + scripted server faults + every --verify-header value class",
-  text="For each small base archive (hash length >= 8, raw and compressed, duplicate chunk) every single-bit flip, every truncation length, every 1-byte and 2-byte overwrite with {00, ff, xor 55}, every payload swap and trailing garbage, x {no seed, seed = source, unrelated seed} x {plain, verify-output}, through the library flow in isolated worker processes and a 1-in-7 (thorough 1-in-2) slice through the real bita binary; --verify-header with the right value, each of its 512 single-bit flips, another value, every proper prefix and over-long values through the real clone_cmd; 11 server misbehaviours at every request position through the real clone_cmd over loopback HTTP. Oracle: failure or exactly the original source; header changes rejected at open; clone proceeds iff the pinned checksum equals the archive's.",
+  text="For each small base archive (hash length >= 8, raw and compressed, duplicate chunk) every single-bit flip, every truncation length, every 1-byte and 2-byte overwrite with {00, ff, xor 55}, every payload swap and trailing garbage, x {no seed, seed = source, unrelated seed} x {plain, verify-output}, through the library flow in isolated worker processes and a 1-in-7 (thorough 1-in-2) slice through the real bita binary; --verify-header with the right value, each of its 512 single-bit flips, another value, every proper prefix and over-long values through the real clone_cmd; 11 server misbehaviours at every request position through the real clone_cmd over loopback HTTP. Oracle: failure or exactly the original source; header changes rejected at open; clone proceeds iff the pinned checksum equals the archive's. --verify-header classes alternate between a plain clone, a clone with a complete seed (no chunk needs fetching) and an in-place clone.",
   note="Hash length >= 8 as the property states. A process death or panic counts as failure here (C15 judges crashes)."),
  "C05": dict(
   category="fault_enumeration", design_ref="DESIGN.md 4/C05",
@@ -21,77 +21,77 @@ CHECKS = {
  "C15": dict(
   category="fault_enumeration", design_ref="DESIGN.md 4/C15",
   technique="exhaustive field x adversarial-value mutation of checksum-valid headers (independent encoder), all bit flips/truncations, scripted server misbehaviour; every case in an isolated worker with address-space limit, watchdog and chunk horizons",
-  text="(i) every single-bit flip and truncation of three small archives; (ii) headers with a re-computed checksum whose fields (chunker parameters, compression, sizes, checksum lengths, rebuild indexes, descriptor sizes/offsets, chunk data offset, missing sub-messages, duplicated/missing descriptors, 100 kB version string) take every value of an adversarial alphabet, singly (quick) and in all pairs (thorough); (ii-b) every dictionary byte x {8 bit flips, 00, 01, 7f, 80, ff} under a re-computed checksum; each opened + info-printed, cloned, cloned with a seed (recorded chunker parameters in use), cloned in place and (single mutations) cloned over HTTP; (iii) 13 server misbehaviours at every request position with retry budgets 0 and 2 through the real clone_cmd. Oracle: success or reported error; a panic, process death, watchdog expiry or chunk-count horizon is a violation, classified by crash site.",
+  text="(i) every single-bit flip and truncation of three small archives; (ii) headers with a re-computed checksum whose fields (chunker parameters, compression, sizes, checksum lengths, rebuild indexes, descriptor sizes/offsets, chunk data offset, missing sub-messages, duplicated/missing descriptors, 100 kB version string) take every value of an adversarial alphabet, singly (quick) and in all pairs (thorough); (ii-b) every dictionary byte x {8 bit flips, 00, 01, 7f, 80, ff} under a re-computed checksum; each opened + info-printed, cloned, cloned with a seed (recorded chunker parameters in use), cloned in place and (single mutations) cloned over HTTP; (iii) 13 server misbehaviours at every request position with retry budgets 0 and 2 through the real clone_cmd. Oracle: success or reported error; a panic, process death, watchdog expiry or chunk-count horizon is a violation, classified by crash site. A run of 64 adjacent descriptors of 256 MiB each (3 x 4 GiB in the thorough tier) declares far more than any single chunk may.",
   note="Known findings F8.b-d, f-i are matched by crash site (file + message kind) or, for process deaths, by the mutated field; anything else is reported. Declared chunk sizes >= 2^31 (legitimately allocated and zero-filled by readers) only in the thorough tier's single mutations."),
  "C07": dict(
   category="exploration", design_ref="DESIGN.md 4/C07",
   technique="exhaustive subset enumeration (2^n) against a logging scripted HTTP server on the real HttpReader",
-  text="Every subset of the descriptors of three archive layouts (contiguous, with gaps, descriptor order != file order; n=9 quick, 14 thorough) is requested through the real HttpReader::read_chunks exactly as Archive::chunk_stream builds the list, against a loopback server logging Range headers (with and without keep-alive, half of the contiguous layout's subsets with the bodies flushed at or one byte past every chunk boundary); oracle: the logged Range sequence equals the maximal runs of adjacent missing chunks in order with inclusive bounds, and the delivered bytes are exact. C06's CLI HTTP leg and C17's HTTP leg repeat the oracle through clone_cmd and on independently encoded non-contiguous archives.",
+  text="Every subset of the descriptors of three archive layouts (contiguous, with gaps, descriptor order != file order; n=9 quick, 14 thorough) is requested through the real HttpReader::read_chunks exactly as Archive::chunk_stream builds the list, against a loopback server logging Range headers (with and without keep-alive, half of the contiguous layout's subsets with the bodies flushed at or one byte past every chunk boundary); oracle: the logged Range sequence equals the maximal runs of adjacent missing chunks in order with inclusive bounds, and the delivered bytes are exact. C06's CLI HTTP leg and C17's HTTP leg repeat the oracle through clone_cmd and on independently encoded non-contiguous archives. A second leg drives Archive::chunk_stream itself over every subset of the chunks of sources with repeated chunks.",
   note="No transfer failures (C08 covers those). Real loopback TCP."),
  "C08": dict(
   category="fault_enumeration", design_ref="DESIGN.md 4/C08",
   technique="deviation-bounded stateless DFS over reader answer scripts (local) and exhaustive fault-sequence enumeration against a scripted HTTP server with a reference model of the retry loop",
-  text="Local: IoReader over a scripted file, all lists of <=2-3 ranges over a small offset/size grid (adjacent, gapped, overlapping, unordered, past EOF), read_at and read_chunks, every answer script with <=2 (quick) / 3 (thorough) deviations from 'full read' (Short(k) for every k, Pending at every poll of read and seek completion), complete tree for single ranges. HTTP: 8 range lists x every single/double split of the first body x every sequence of <=2/3 faults from {connection refused, cut after k bytes for every k incl. 0 and len} x retry budgets 0..3 (+ body ending early, faults on a later run); oracle: a reference model of the resuming retry loop predicts the exact items, the exact Range of every (re)request and whether an error must be returned. Archive level: chunk_stream yields nothing after its first error; the real clone_cmd with --http-retry-count b survives exactly b failed transfers.",
+  text="Local: IoReader over a scripted file, all lists of <=2-3 ranges over a small offset/size grid (adjacent, gapped, overlapping, unordered, past EOF), read_at and read_chunks, every answer script with <=2 (quick) / 3 (thorough) deviations from 'full read' (Short(k) for every k, Pending at every poll of read and seek completion), complete tree for single ranges. HTTP: 8 range lists x every single/double split of the first body x every sequence of <=2/3 faults from {connection refused, cut after k bytes for every k incl. 0 and len} x retry budgets 0..3 (+ body ending early, faults on a later run); oracle: a reference model of the resuming retry loop predicts the exact items, the exact Range of every (re)request and whether an error must be returned. Archive level: chunk_stream yields nothing after its first error; the real clone_cmd with --http-retry-count b survives exactly b failed transfers. Large reads around 2^16..2^18 on a 300 kB file.",
   note="A4 (fragmentation scripted on the server side; transport may coalesce). Zero-length ranges are outside C08 (judged under C15)."),
  "C17": dict(
   category="exploration", design_ref="DESIGN.md 4/C17",
   technique="exhaustive enumeration of layout recipes through an independent encoder; real reader locally and over HTTP",
-  text="An independent encoder (no prost, no bitar) produces, for sources of <=3/4 words incl. the empty source and duplicates, every combination of magic {current, legacy} x slack {0,1,7,100} x all permutations of stored chunks x gap patterns x unknown fields in every message x all per-chunk storage forms {compressed iff smaller, raw, compressed although larger} x hash length {4,5,64} x packed/unpacked rebuild order, per chunker/compression universe; each archive is opened by the real reader (all accessors == encoder inputs), printed by the real info code and cloned locally, with a seed (recorded chunker parameters in use), over HTTP (requests == maximal runs), and every 16th through the real clone_cmd --verify-output (file and HTTP). Quick thins the product 1-in-5 deterministically keeping every value of every dimension; thorough takes the full product.",
+  text="An independent encoder (no prost, no bitar) produces, for sources of <=3/4 words incl. the empty source and duplicates, every combination of magic {current, legacy} x slack {0,1,7,100} x all permutations of stored chunks x gap patterns x unknown fields in every message x all per-chunk storage forms {compressed iff smaller, raw, compressed although larger} x hash length {4,5,64} x packed/unpacked rebuild order, per chunker/compression universe; each archive is opened by the real reader (all accessors == encoder inputs), printed by the real info code and cloned locally, with a seed (recorded chunker parameters in use), over HTTP (requests == maximal runs), and every 16th through the real clone_cmd --verify-output (file and HTTP). Quick thins the product 1-in-5 deterministically keeping every value of every dimension; thorough takes the full product. Every 16th archive is also cloned by clone_cmd in place over a prior output holding the chunks in reverse order.",
   note="Trusted: the independent encoder as the definition of 'conforming' (cross-validated against bitar bit-for-bit on bitar-written archives)."),
  "C01": dict(
   category="model_checking", design_ref="DESIGN.md 4/C01",
   technique="deviation-bounded stateless DFS over blocking-pool schedules of the real compress_cmd/create_archive/clone_cmd (gate in a vendored tokio) + exhaustive small-alphabet input x configuration sweep",
-  text="Schedules: every order in which blocking-pool tasks (hashing, compression, tokio::fs::File operations) complete relative to polls of the main future, on the real CLI compress, library writer and CLI clone: bound 2 on seven subjects plus the COMPLETE tree of a 3-chunk CLI compress (quick); bound 3 plus complete trees of nine subjects (CLI compress 2/3 chunks at buffers 2 = 57 540 schedules, 4 chunks with a duplicate, brotli; library writer; CLI clone plain / seeded / in place) in the thorough tier; each schedule is one execution of the real code judged by the round trip and the recorded size/checksum. Inputs x configurations: all strings over a 3-letter alphabet up to length 5/7 (3/5 under compression) plus a boundary family around window/min/max, over a pairwise-style grid of chunkers, hash lengths, compressions and buffer counts, through the library writer and the real CLI compress+clone on files; seven sources beyond the 1 MiB refill buffer incl. chunks beyond 2 MiB; real-binary grid (file/stdin input, local/HTTP clone).",
+  text="Schedules: every order in which blocking-pool tasks (hashing, compression, tokio::fs::File operations) complete relative to polls of the main future, on the real CLI compress, library writer and CLI clone: bound 2 on seven subjects plus the COMPLETE tree of a 3-chunk CLI compress (quick); bound 3 plus complete trees of nine subjects (CLI compress 2/3 chunks at buffers 2 = 57 540 schedules, 4 chunks with a duplicate, brotli; library writer; CLI clone plain / seeded / in place) in the thorough tier; each schedule is one execution of the real code judged by the round trip and the recorded size/checksum. Inputs x configurations: all strings over a 3-letter alphabet up to length 5/7 (3/5 under compression) plus a boundary family around window/min/max, over a pairwise-style grid of chunkers, hash lengths, compressions and buffer counts, through the library writer and the real CLI compress+clone on files; seven sources beyond the 1 MiB refill buffer incl. chunks beyond 2 MiB; real-binary grid (file/stdin input, local/HTTP clone). Break-even chunks (compressed size == source size) are searched and round-tripped; the CLI round trip clones a second time over an existing, longer file with --force-create. A further leg runs the real binary over the full product of output-opening options x state of the output path x transport x archive parameterisation (lib/cligrid.py: 1 008 clone cells, 360 compress cells, each in a snapshotted private directory) and reports this property's classes of departures from a model of the command line.",
   note="A3: schedule granularity = blocking task runs to completion / main future polled once (sound: tasks share nothing but join handles, <=1 op in flight per file handle); reduction R1 validated against the unreduced search; real-binary leg binds the in-process legs to the shipped artefact. HTTP read path is covered by C07/C08/C17."),
  "C11": dict(
   category="model_checking", design_ref="DESIGN.md 4/C11",
   technique="independent decoder + conformance checklist applied to every archive of the input sweep and of every explored compress schedule",
-  text="Every archive produced in the C01 sweep and under every explored schedule of both writers, and by the real binary with the source piped into stdin, is decoded by a codec written from header.rs' table and chunk_dictionary.proto only (no prost, no bitar) and checked against the full checklist: magic, LE sizes, dictionary decodes without unknown fields, chunk data offset == header length, header checksum, file ends at the end of the last chunk, descriptors unique/back-to-back/first-occurrence order, stored <= source size, every chunk decodes and hashes to its checksum, rebuild order valid and reproducing the source, recorded parameters/compression/metadata == requested, boundaries == reference chunking; bitar::Archive accessors, `bita info` (local and over HTTP) and --metadata-key compared with the decoder's / requested values.",
+  text="Every archive produced in the C01 sweep and under every explored schedule of both writers, and by the real binary with the source piped into stdin, is decoded by a codec written from header.rs' table and chunk_dictionary.proto only (no prost, no bitar) and checked against the full checklist: magic, LE sizes, dictionary decodes without unknown fields, chunk data offset == header length, header checksum, file ends at the end of the last chunk, descriptors unique/back-to-back/first-occurrence order, stored <= source size, every chunk decodes and hashes to its checksum, rebuild order valid and reproducing the source, recorded parameters/compression/metadata == requested, boundaries == reference chunking; bitar::Archive accessors, `bita info` (local and over HTTP) and --metadata-key compared with the decoder's / requested values. The stdin leg starts every other run with a stale temp file of an earlier failed run in place.",
   note="Trusted: the independent codec (cross-validated bit-for-bit against bitar on 48 archives and the golden files) and the reference chunker."),
  "C12": dict(
   category="model_checking", design_ref="DESIGN.md 4/C12",
   technique="deviation-bounded schedule exploration of the real writers; byte comparison of the archive from every explored schedule, buffer count and input fragmentation",
-  text="For each (writer, source, options) the archive bytes observed after runtime shutdown are collected over every explored blocking-pool schedule (bound 2 + one complete tree quick / bound 3 + nine complete trees thorough), over buffered-chunks 1/2/3/8/64 and over input read sizes {whole,1,3,7 with Pending}; the real binary adds file vs pipe input, TOKIO_WORKER_THREADS 1/2/default, repeated runs, write-delay injection (thorough) and a stale temp file of an earlier failed run; the oracle is exactly one distinct byte string per group.",
+  text="For each (writer, source, options) the archive bytes observed after runtime shutdown are collected over every explored blocking-pool schedule (bound 2 + one complete tree quick / bound 3 + nine complete trees thorough), over buffered-chunks 1/2/3/8/64 and over input read sizes {whole,1,3,7 with Pending}; the real binary adds file vs pipe input, TOKIO_WORKER_THREADS 1/2/default, repeated runs, write-delay injection (thorough) and a stale temp file of an earlier failed run; the oracle is exactly one distinct byte string per group. One --force-create run per group overwrites an existing, longer archive. A further leg runs the real binary over the full product of output-opening options x state of the output path x transport x archive parameterisation (lib/cligrid.py: 1 008 clone cells, 360 compress cells, each in a snapshotted private directory) and reports this property's classes of departures from a model of the command line.",
   note="Same trusted base as C01's schedule legs (A3, R1). Worker-count variation of the real multi-thread runtime is subsumed by the schedule exploration (the gate owns every completion order)."),
  "C14": dict(
   category="exploration", design_ref="DESIGN.md 4/C14", engine="py",
   technique="exhaustive finite grid of (command, output state, flags, archive kind) cells on the real binary; before/after content hashes",
-  text="The full grid {clone local, clone HTTP, compress} x {output absent, empty, shorter, longer, identical, other content, block device large/too small} x {none, -f, --seed-output, both} x {valid, bad magic, flipped header byte, truncated header, wrong/right --verify-header} (compress also onto an existing block device; the too-small device also with a compressible source whose archive is far smaller than the device) is executed on the real bita binary (real loop devices); for every refusal cell: exit != 0, content hash and length unchanged, no file created on header/archive refusals, compress temp file not created; non-refusal cells must succeed with the right content (guards against vacuity).",
+  text="The full grid {clone local, clone HTTP, compress} x {output absent, empty, shorter, longer, identical, other content, block device large/too small} x {none, -f, --seed-output, both} x {valid, bad magic, flipped header byte, truncated header, wrong/right --verify-header} (compress also onto an existing block device; the too-small device also with a compressible source whose archive is far smaller than the device) is executed on the real bita binary (real loop devices); for every refusal cell: exit != 0, content hash and length unchanged, no file created on header/archive refusals, compress temp file not created; non-refusal cells must succeed with the right content (guards against vacuity). The quick grid passes --verify-output on every existing-output cell. A further leg runs the real binary over the full product of output-opening options x state of the output path x transport x archive parameterisation (lib/cligrid.py: 1 008 clone cells, 360 compress cells, each in a snapshotted private directory) and reports this property's classes of departures from a model of the command line.",
   note="A5: observation of the real binary at the file-system boundary; conditions outside the grid unseen. Loop devices with fallback to hook H1."),
  "C16": dict(
   category="exploration", design_ref="DESIGN.md 4/C16", engine="py",
   technique="exhaustive finite grid of clone/compress modes on the real binary observed with strace at the file-opening system calls + directory snapshots",
-  text="Every clone mode (plain, -f, 1-2 seed files, stdin seed, in-place, seed+in-place) x {local, HTTP} x {none, --verify-output, --verify-header} x {relative, absolute paths}, three kinds of clone that fail after the output was opened (missing seed, corrupt chunk, corrupt chunk in place), and 14-28 compress configurations incl. the empty source run under strace -f; every open with a write/create/truncate flag, every unlink/rename/mkdir/link/truncate is attributed to a path: clone may only write-open the output, removes/renames nothing; compress may only touch the archive and its temp file, removes exactly the temp file; directory snapshots before/after must differ by the output only.",
+  text="Every clone mode (plain, -f, 1-2 seed files, stdin seed, in-place, seed+in-place) x {local, HTTP} x {none, --verify-output, --verify-header} x {relative, absolute paths}, three kinds of clone that fail after the output was opened (missing seed, corrupt chunk, corrupt chunk in place), and 14-28 compress configurations incl. the empty source run under strace -f; every open with a write/create/truncate flag, every unlink/rename/mkdir/link/truncate is attributed to a path: clone may only write-open the output, removes/renames nothing; compress may only touch the archive and its temp file, removes exactly the temp file; directory snapshots before/after must differ by the output only. Also: -f onto a dangling symlink and onto a running executable (the open fails: nothing may be removed or created), and -v / -vv on clone and compress cases. A further leg runs the real binary over the full product of output-opening options x state of the output path x transport x archive parameterisation (lib/cligrid.py: 1 008 clone cells, 360 compress cells, each in a snapshotted private directory) and reports this property's classes of departures from a model of the command line.",
   note="A5; trusted: strace's syscall decoding and the fd-table reconstruction (a fork, exec, chdir or unparsable line is a machinery error)."),
  "C02": dict(
   category="exploration", design_ref="DESIGN.md 4/C02",
   technique="exhaustive enumeration of seed sets over chunk-word alphabets on the real clone flow; reference clone model",
-  text="Bounded exhaustive: for every source of <=3/4 words and every seed set (all single seeds of <=3/4 letters, all ordered pairs of <=2-letter seeds, empty, seed=source) over letters {source words, junk words, half word, size-colliding junk}, per chunker universe (FixedSize, RollSum, BuzHash; raw and compressed) and hash length 64/8/4, the real library clone flow runs on in-memory devices; the real clone_cmd runs the same families with seed files, incl. every seed x prior-output combination with --seed-output (local and HTTP); the real binary adds stdin seeds in every argument order and seeded clones under a file-size limit at every chunk boundary. Oracle: the run succeeds and the output equals the source (under a write fault: reported success implies the right output).",
+  text="Bounded exhaustive: for every source of <=3/4 words and every seed set (all single seeds of <=3/4 letters, all ordered pairs of <=2-letter seeds, empty, seed=source) over letters {source words, junk words, half word, size-colliding junk}, per chunker universe (FixedSize, RollSum, BuzHash; raw and compressed) and hash length 64/8/4, the real library clone flow runs on in-memory devices; the real clone_cmd runs the same families with seed files, incl. every seed x prior-output combination with --seed-output (local and HTTP); the real binary adds stdin seeds in every argument order and seeded clones under a file-size limit at every chunk boundary. Oracle: the run succeeds and the output equals the source (under a write fault: reported success implies the right output). An existing longer output combined with seeds is covered. A further leg runs the real binary over the full product of output-opening options x state of the output path x transport x archive parameterisation (lib/cligrid.py: 1 008 clone cells, 360 compress cells, each in a snapshotted private directory) and reports this property's classes of departures from a model of the command line.",
   note="Library-level flow re-assembled from bitar's public API (mirror of clone_archive); CLI wiring is covered by the CLI legs. A1: no truncated-hash collision inside a scenario."),
  "C03": dict(
   category="exploration", design_ref="DESIGN.md 4/C03",
   technique="exhaustive enumeration of (prior layout, target) pairs on the real planner+executor over an instrumented device; invariant on the operation log",
-  text="Bounded exhaustive: L0 = all pairs (prior layout, target) with <=4 (quick) / <=6 (thorough: 6.1e8 pairs) chunks over 3 identities + junk + gap and all 27 size assignments from {1,2,3} through the real strip/reorder_ops/reorder_in_place/feed (every overlap, chain, cycle and duplicate pattern at that scope); L1 = full library flow with the real chunker scanning the prior output over word universes; the real clone_cmd --seed-output on files and through the block-device path; the real binary on loop devices for 11 hand-picked layouts; supplementary pseudo-random edited 20-50 kB files. Oracles: no panic, success, output == source, and the first read of every moved chunk returns the prior bytes (no reusable chunk destroyed before copied or buffered).",
+  text="Bounded exhaustive: L0 = all pairs (prior layout, target) with <=4 (quick) / <=6 (thorough: 6.1e8 pairs) chunks over 3 identities + junk + gap and all 27 size assignments from {1,2,3} through the real strip/reorder_ops/reorder_in_place/feed (every overlap, chain, cycle and duplicate pattern at that scope); L1 = full library flow with the real chunker scanning the prior output over word universes; the real clone_cmd --seed-output on files and through the block-device path; the real binary on loop devices for 11 hand-picked layouts; supplementary pseudo-random edited 20-50 kB files. Oracles: no panic, success, output == source, and the first read of every moved chunk returns the prior bytes (no reusable chunk destroyed before copied or buffered). Real binary: every layout x every word piped into `--seed -` together with --seed-output. A further leg runs the real binary over the full product of output-opening options x state of the output path x transport x archive parameterisation (lib/cligrid.py: 1 008 clone cells, 360 compress cells, each in a snapshotted private directory) and reports this property's classes of departures from a model of the command line.",
   note="Chunk counts above the bound and contents outside the alphabets not covered; A1."),
  "C06": dict(
   category="exploration", design_ref="DESIGN.md 4/C06",
   technique="exhaustive scenario enumeration with a recording ArchiveReader; reference clone model of the expected fetch set",
-  text="Bounded exhaustive over the C02/C03 scenario families (prior outputs used as seed, existing outputs not used as seed, seeds, combinations): the multiset of chunk ranges requested from the archive must equal the stored ranges of (source chunks) minus (chunks the reference chunker finds in seeds / prior output); all other reads lie inside the header.",
+  text="Bounded exhaustive over the C02/C03 scenario families (prior outputs used as seed, existing outputs not used as seed, seeds, combinations): the multiset of chunk ranges requested from the archive must equal the stored ranges of (source chunks) minus (chunks the reference chunker finds in seeds / prior output); all other reads lie inside the header. The CLI legs carry --force-create together with --seed-output on alternate scenarios and serve every 40th HTTP scenario with bodies flushed byte by byte. A further leg runs the real binary over the full product of output-opening options x state of the output path x transport x archive parameterisation (lib/cligrid.py: 1 008 clone cells, 360 compress cells, each in a snapshotted private directory) and reports this property's classes of departures from a model of the command line.",
   note="Reference chunker defines 'found by scanning'; scenarios on which it disagrees with the real chunker (F5 input class) are counted, not judged."),
  "C13": dict(
   category="exploration", design_ref="DESIGN.md 4/C13",
   technique="exhaustive scenario enumeration observing the write log of an instrumented in-memory output",
-  text="Bounded exhaustive over the C02/C03 scenario families plus the L0 planner/executor enumeration: every write must be one source chunk's bytes at one of its source offsets, each location at most once, never a location the scan found in place, never at or beyond the source length.",
+  text="Bounded exhaustive over the C02/C03 scenario families plus the L0 planner/executor enumeration: every write must be one source chunk's bytes at one of its source offsets, each location at most once, never a location the scan found in place, never at or beyond the source length. Real binary under strace: every write to the output for 31 layouts x {64-byte, 16-byte hashes}.",
   note="Observation at poll_write granularity of a device that accepts whole buffers; A1."),
  "C09": dict(
   category="model_checking", design_ref="DESIGN.md 4/C09",
   technique="explicit-state BFS over reader answers on the real StreamingChunker (state-fingerprint merging) + exhaustive small-alphabet enumeration against a reference chunker",
-  text="Bounded exhaustive: every string up to length 9 (quick, 3 letters) / 11 (thorough, 4 letters: 1.6e9 cases) over a configuration grid (3 algorithms, windows 1-4, min <,=,> window, bits 1-3), every window 5..64,128,255,256 on 24 kB inputs at 6-17 filter bits, and 4-11 MiB inputs with chunks up to 5 MiB and windows >= 21 with > 16 filter bits, chunked by the real code and compared with an independent non-incremental reference chunker (rule, tiling, min/max); read independence is decided by an explicit-state search over every reader answer (Ready(k) for all k, Pending, EOF) with states merged on a hash of the complete chunker state, so all 2^(n-1) fragmentations of each input are covered by O(n^2) transitions, each an execution of the real code (strings up to 6/9, boundary family, five MiB-sized configurations under a reduced answer menu).",
+  text="Bounded exhaustive: every string up to length 9 (quick, 3 letters) / 11 (thorough, 4 letters: 1.6e9 cases) over a configuration grid (3 algorithms, windows 1-4, min <,=,> window, bits 1-3), every window 5..64,128,255,256 on 24 kB inputs at 6-17 filter bits, and 4-11 MiB inputs with chunks up to 5 MiB and windows >= 21 with > 16 filter bits, chunked by the real code and compared with an independent non-incremental reference chunker (rule, tiling, min/max); read independence is decided by an explicit-state search over every reader answer (Ready(k) for all k, Pending, EOF) with states merged on a hash of the complete chunker state, so all 2^(n-1) fragmentations of each input are covered by O(n^2) transitions, each an execution of the real code (strings up to 6/9, boundary family, five MiB-sized configurations under a reduced answer menu). Leg B2 enumerates all 2^(n-1) fragmentations unmerged for short inputs; the window sweep includes 1024 / 4200 / 6000 / 16384, where the 32-bit sums of RollSum wrap around.",
   note="Trusted: the reference chunker (validated: 0 disagreements for RollSum/FixedSize, BuzHash disagreements all explained by known finding F5), hook H2's state hash covering every chunker field, DefaultHasher collisions negligible. Alphabet/length bounds as stated in evidence."),
  "C10": dict(
   category="exploration", design_ref="DESIGN.md 4/C10",
   technique="exhaustive enumeration of (prefix pair, suffix) triples over small alphabets on the real chunker; oracle = the statement",
-  text="Bounded exhaustive: all prefix pairs over {00,07}^<=3 (quick: P1 empty) x all suffixes of length 13/16 over two binary alphabets x the configuration grid, plus a 1-in-16 slice with the second stream delivered 1 or 3 bytes per read; for each pair the literal statement (common boundary >= window past the start of the common data => identical later boundaries) is evaluated on the real chunker's output. Violations are classified against the reference chunker so that only F5's input class is treated as known.",
+  text="Bounded exhaustive: all prefix pairs over {00,07}^<=3 (quick: P1 empty) x all suffixes of length 13/16 over two binary alphabets x the configuration grid, plus a 1-in-16 slice with the second stream delivered 1 or 3 bytes per read; for each pair the literal statement (common boundary >= window past the start of the common data => identical later boundaries) is evaluated on the real chunker's output. Violations are classified against the reference chunker so that only F5's input class is treated as known. A fixed large-window family (windows 4200 / 6000 / 16384, 5 prefixes x 3 suffixes of 70 kB, all prefix pairs) covers hash sums that wrap around.",
   note="Trusted: reference chunker for classification only; the oracle is the property statement on real outputs. Windows 1-4, suffix length bound."),
 }
 
